@@ -463,7 +463,10 @@ AnyCellmlElementPtr Annotator::AnnotatorImpl::convertToShared(const AnyCellmlEle
 void Annotator::AnnotatorImpl::buildIdList()
 {
     mIdList.clear();
-    mIdList = listIdsAndItems(mModel.lock());
+    auto model = mModel.lock();
+    if (model != nullptr) {
+        mIdList = listIdsAndItems(model);
+    }
 }
 
 size_t Annotator::AnnotatorImpl::idCount()
